@@ -89,6 +89,9 @@ class Mixture(BigSMILESbase):
     def generate_string(self, extension):
         if extension:
             if self.absolute_mass is None:
+                if self.relative_mass is None:
+                    # No valid mass was read (see the warning in __init__): keep the text as written
+                    return self._raw_text
                 return f".|{self.relative_mass}%|"
             return f".|{self.absolute_mass}|"
         return "."
